@@ -11,6 +11,7 @@ import WR.C14.LemmasProto
 import WR.C14.LemmasLinks
 import WR.C14.LemmasBookmarks
 import WR.C14.LemmasParents
+import WR.C14.LemmasDoc
 namespace WR.Props.C14
 open WR.C14
 
@@ -84,6 +85,35 @@ theorem diagnosis_complete (evs : List Ev) (c : Nat) :
   constructor
   · rintro ⟨⟨a, b⟩, c⟩; exact ⟨a, b, c⟩
   · rintro ⟨a, b, c⟩; exact ⟨⟨a, b⟩, c⟩
+
+/-- Acceptance by `sealedOk` ⇒ a group canvas is handed over (DrawWithOpacity / SetAlphaMask / SetColorPattern)
+    only when every OnNewStack opened on it has been closed, and nothing is drawn on it afterwards. -/
+theorem monitor_sound_groups_sealed (evs : List Ev) (h : sealedOk evs = true) :
+    ∀ g ∈ groups evs, ∀ pre e post, evs = pre ++ e :: post → e.isUseOf g = true →
+      (onCanvas g pre).countP Ev.isSave = (onCanvas g pre).countP Ev.isRestore
+      ∧ ∀ y ∈ post, y.canvas = some g → y.isUseOf g = true := by
+  intro g hg pre e post hsplit he
+  simp only [sealedOk, List.all_eq_true] at h
+  have := sealOk_sound g evs 0 0 false (h g hg) pre e post hsplit he
+  simpa using this
+
+/-- Acceptance by `docOk` ⇒ the document-level protocol of Write: CreateAnchors is called exactly once, after
+    the last AddPage and the last link / media-box call on a page; SetBookmarks and each of the 8 metadata
+    setters are called exactly once. -/
+theorem document_protocol_sound (d : List DocEv) (h : docOk d = true) :
+    (∃ pre post, d = pre ++ DocEv.createAnchors :: post ∧ DocEv.createAnchors ∉ pre ∧ DocEv.createAnchors ∉ post
+      ∧ ∀ y ∈ post, y.isPage = false)
+    ∧ d.count .setBookmarks = 1
+    ∧ ∀ k, k < 8 → d.count (.metadata k) = 1 := by
+  simp only [docOk, Bool.and_eq_true, beq_iff_eq, List.all_eq_true, List.mem_range] at h
+  exact ⟨phaseOk_sound d h.1.1.1, h.1.1.2, fun k hk => h.1.2 k hk⟩
+
+example : docOk ([.addPage, .pageCall, .addPage, .pageCall, .createAnchors, .setAttachments, .setBookmarks]
+    ++ (List.range 8).map .metadata) = true := by decide
+example : docOk ([.addPage, .createAnchors, .addPage, .setBookmarks] ++ (List.range 8).map .metadata) = false := by decide
+example : sealedOk [.addPage 1, .newGroup 1 2, .save 2, .path 2 .rect, .paint 2, .restore 2, .useGroup 1 2, .other 1] = true := by decide
+example : sealedOk [.addPage 1, .newGroup 1 2, .save 2, .useGroup 1 2, .restore 2] = false := by decide
+example : sealedOk [.addPage 1, .newGroup 1 2, .useGroup 1 2, .path 2 .rect] = false := by decide
 
 /-- non-vacuity: a two-page trace with a group, a font, text, a clip and a fill is accepted … -/
 example : accepts 2 [.addPage 1, .save 1, .path 1 .rect, .clip 1, .newGroup 1 2, .addFont 2 7, .drawText 2 [7],
